@@ -72,6 +72,7 @@ struct HCpca : Harness {
     sim_cfg sc; std::vector<sim_switch> rs; cfg_from_plan(p, sc, rs);
     if (strategy_override >= 0) { sc.strategy = strategy_override; sc.replay = nullptr; sc.n_replay = 0; }
     sc.nproc = nproc; sc.step_limit = (tier == "quick") ? 100000000ULL : 1000000000ULL;
+    sc.garbage_mode = strategy_override == SIM_S0_SEQUENTIAL ? (nproc == 1 ? 2 : 1) : 3;  // zeros / NaN garbage / huge finite garbage in the three fits
     sim_begin_run(&sc);
     Fit f; CCall c{&blocks, scaling, npc, &f.out, extras};
     f.rc = sim_guard(call_cpca, &c);
